@@ -85,6 +85,12 @@ impl GenCfg {
 /// 1 small (<= 5x5), 2 medium (<= 11x9), 3 edge cases (1, 2, 7, 8, 9, 15, 16, 17).
 pub fn gen_size(rng: &mut Rng, class: u8) -> (u16, u16) {
     const EDGE: [u16; 12] = [1, 2, 3, 7, 8, 9, 15, 16, 17, 24, 31, 33];
+    if class == 3 && rng.chance(1, 60) {
+        // extreme aspect: thousands of samples in one dimension, a handful in the other
+        let long = *rng.pick(&[1000u16, 2047, 2048, 4095, 4097, 16384, 65535]);
+        let short = rng.range(1, 3) as u16;
+        return if rng.bool() { (long, short) } else { (short, long) };
+    }
     let mut dim = |rng: &mut Rng| -> u16 {
         match class {
             0 => rng.range(1, 32) as u16,
@@ -115,13 +121,19 @@ pub fn flavour_for(rng: &mut Rng, cfg: &GenCfg, w: u16, h: u16) -> (Flavour, u16
         }
         3 => {
             // fixed formats only; sub-QCIF unless asked for something larger
-            let fmt = if w as u32 * h as u32 > 128 * 96 && rng.chance(1, 8) { 2 } else { 1 };
+            let fmt = if rng.chance(1, 60) {
+                3 // CIF: 396 macroblocks
+            } else if w as u32 * h as u32 > 128 * 96 && rng.chance(1, 8) {
+                2
+            } else {
+                1
+            };
             let (fw, fh) = STD_FIXED[fmt as usize - 1];
             (Flavour::StdPtype { fmt, umv: false, sac: false, ap: false, pb: false }, fw, fh)
         }
         _ => {
-            let w4 = ((w + 3) / 4 * 4).clamp(4, 2048);
-            let h4 = ((h + 3) / 4 * 4).clamp(4, 1020);
+            let w4 = ((w as u32 + 3) / 4 * 4).clamp(4, 2048) as u16;
+            let h4 = ((h as u32 + 3) / 4 * 4).clamp(4, 1020) as u16;
             let layers = if cfg.scal { Some((rng.below(16) as u8, rng.below(16) as u8)) } else { None };
             (Flavour::StdPlus { umv_unlimited: false, layers, hdr: None }, w4, h4)
         }
